@@ -79,10 +79,9 @@ class GenericMixin:
                 if not (isinstance(base.__origin__, type) and issubclass(base.__origin__, GenericMixin)):
                     continue  # a parametrized base that has nothing to do with this mixin, e.g. List[int]
 
-                generic_base = get_generic_base(base.__origin__)
+                generic_base, types = _resolve_generic_base(origin=base.__origin__, args=base.__args__)
 
                 if generic_base:
-                    types = base.__args__
                     break
         else:
             if not hasattr(self, '__orig_class__'):
@@ -101,6 +100,28 @@ class GenericMixin:
         """ Get the name of the class of this instance. """
 
         return type(self).__name__
+
+
+def _resolve_generic_base(origin: Any, args: tuple) -> tuple:
+    """
+        Follows forwarding or partially binding subclasses, e.g. class Mid(A[int, U]), up to the class that
+        declares Generic[...] and substitutes the given arguments for the type parameters on the way.
+    """
+
+    generic_base = get_generic_base(origin)
+
+    if generic_base:
+        return generic_base, args
+
+    binding = dict(zip(getattr(origin, '__parameters__', ()), args))
+
+    for base in origin.__orig_bases__:
+        base_origin = getattr(base, '__origin__', None)
+
+        if isinstance(base_origin, type) and issubclass(base_origin, GenericMixin):
+            return _resolve_generic_base(origin=base_origin, args=tuple(binding.get(a, a) for a in base.__args__))
+
+    return None, args
 
 
 def get_generic_base(obj: Any) -> Optional[GenericAlias]:
